@@ -42,6 +42,14 @@
 using namespace drv;
 
 static std::string cur_id;
+static std::string g_rec;
+
+#if defined (__SANITIZE_ADDRESS__)
+extern "C" int __lsan_do_recoverable_leak_check (void);
+# define VERIF_LEAK_CHECK() __lsan_do_recoverable_leak_check ()
+#else
+# define VERIF_LEAK_CHECK() 0
+#endif
 
 static void
 on_alarm (int)
@@ -421,7 +429,7 @@ cmd_run (std::vector <std::string> const &w)
     os << ",\"soft1\":" << jstr (first);
   os << "}";
   alarm (0);
-  std::cout << os.str () << "\n";
+  g_rec = os.str ();
 }
 
 // hist ID FLAGS HEXQUERY SCHED HEXINPUTQ...
@@ -446,7 +454,7 @@ cmd_hist (std::vector <std::string> const &w)
   if (query == nullptr || query2 == nullptr)
     {
       os << "\"status\":\"parse_error\",\"err\":" << jstr (err) << "}";
-      std::cout << os.str () << "\n";
+      g_rec = os.str ();
       return;
     }
 
@@ -475,7 +483,7 @@ cmd_hist (std::vector <std::string> const &w)
       if (in == nullptr)
 	{
 	  os << "\"status\":\"input_error\",\"err\":" << jstr (ierr) << "}";
-	  std::cout << os.str () << "\n";
+	  g_rec = os.str ();
 	  return;
 	}
       inputs.push_back (in);
@@ -580,7 +588,7 @@ cmd_hist (std::vector <std::string> const &w)
   os << ",\"inputs_intact\":" << (intact ? "true" : "false")
      << ",\"soft\":" << nsoft << ",\"status\":\"ok\"}";
   alarm (0);
-  std::cout << os.str () << "\n";
+  g_rec = os.str ();
 }
 
 // parse ID FLAGS HEXQUERY: the query bytes are placed at the very end of a
@@ -651,7 +659,7 @@ cmd_parse (std::vector <std::string> const &w)
   munmap (base, (npg + 1) * pg);
   os << "}";
   alarm (0);
-  std::cout << os.str () << "\n";
+  g_rec = os.str ();
 }
 
 int
@@ -685,6 +693,15 @@ main (int argc, char **argv)
       if (w[0] == "run") cmd_run (w);
       else if (w[0] == "hist") cmd_hist (w);
       else if (w[0] == "parse") cmd_parse (w);
+      // Leaks are attributed to the command that caused them.
+      int leaked = VERIF_LEAK_CHECK ();
+      if (! g_rec.empty ())
+	{
+	  if (leaked && g_rec.back () == '}')
+	    g_rec = g_rec.substr (0, g_rec.size () - 1) + ",\"leak\":true}";
+	  std::cout << g_rec << "\n";
+	  g_rec.clear ();
+	}
       std::cout.flush ();
     }
   zw_vocabulary_destroy (g_voc);
